@@ -47,6 +47,14 @@ def run(ctx, rel_path, model_path, scripts, max_lines):
     stats = dict(steps=0, agree=0, skipped_vtb_btc=0, histories=0, ops={})
     harness = M.Proc(rel_path)
     model = M.Proc(model_path)
+    from props import _mpxcheck
+    raw_send = model.send
+
+    def logged_send(line):      # every line the extracted model answers is kept for the in-Coq cross-check
+        r = raw_send(line)
+        _mpxcheck.POOL.append((stats["histories"], line, r[0]))
+        return r
+    model.send = logged_send
     used = 0
     try:
         for lines in scripts:
